@@ -75,7 +75,7 @@ def judge(ctx, programs, families, compiler="clang++"):
     for fam in families:
         fd = os.path.join(work, fam)
         os.makedirs(fd, exist_ok=True)
-        defs = ["-DM2_VERIF"] if fam == "verif" else []
+        defs = {"verif": ["-DM2_VERIF"], "verif64": ["-DM2_VERIF", "-DM2_VERIF64"]}.get(fam, [])
         hdr = os.path.join(fd, "pch.hpp")
         with open(hdr, "w") as f:
             f.write('#include "%s"\n' % ENV)
@@ -158,7 +158,7 @@ class Ids:
 
 CANON_TYPES = {"int": "int", "bool": "bool", "uchar": "unsigned char", "long": "long", "ullong": "unsigned long long", "enum": "En", "float": "float",
                "double": "double", "pint": "int *", "pcchar": "const char *", "ppint": "int **", "pvoid": "void *", "fn": "int (*)(int)", "arr": "int[4]",
-               "st": "St", "pst": "St *", "pchar": "char *", "fn2": "void (*)(char *, long)", "parr": "int *[2]"}
+               "st": "St", "pst": "St *", "pchar": "char *", "fn2": "void (*)(char *, long)", "parr": "int *[2]", "sarr": "std::array<int *, 2>"}
 
 
 def wt(ids, kind, ty):
